@@ -90,6 +90,15 @@ func (s *SpokFile) expandGlobs() error {
 	return nil
 }
 
+// ExpandGlobs expands every glob pattern in the spokfile and returns the map of
+// pattern to the concrete filepaths it currently matches.
+func (s *SpokFile) ExpandGlobs() (map[string][]string, error) {
+	if err := s.expandGlobs(); err != nil {
+		return nil, err
+	}
+	return s.Globs, nil
+}
+
 // buildGraph takes in a list of requested tasks, examines their dependencies, constructs
 // and returns the dependency graph.
 func (s *SpokFile) buildGraph(requested ...string) (*dag.Graph[string, task.Task], error) {
